@@ -28,6 +28,7 @@ import PrqlModel.Lemmas.RelBlock
 import PrqlModel.Lemmas.RelBlockPerm
 import PrqlModel.Lemmas.RelBlockSplit
 import PrqlModel.Lemmas.Reorder
+import PrqlModel.Lemmas.Preprocess
 namespace Props.C01
 open Gen.Split Model.Split Lemmas.Split
 
@@ -416,5 +417,164 @@ example : reorderTr [.from [0], .sort [0], .take .nil [] [], .compute { id := 1,
     [.from [0], .sort [0], .take .nil [] [], .compute { id := 1, expr := .col 0, win := some [], isAgg := false }] := by decide
 
 end Reorder
+
+/-! ### the stages of `preprocess` that introduce DISTINCT, ROW_NUMBER filters and set operations
+(mirror Model.Preprocess, tie: every recorded stage call is replayed, tools/preptrace.py) -/
+section Stages
+open Model.Preprocess Lemmas.Preprocess
+
+/-- DISTINCT is chosen only for "the first row of each group", without a sort, when the partition is - as a set - the
+frame the pass looks at -/
+theorem distinct_only_for_first_row_of_whole_frame (cfg : Cfg) (frame : List CId) (s e : Option Int) (partition : List CId)
+    (sort : List CS) (h : distinctChoice cfg frame s e partition sort = .distinct) :
+    s.getD 1 = 1 ∧ e = some 1 ∧ sort = [] ∧ sameElements frame partition = true := by
+  unfold distinctChoice at h
+  dsimp only at h
+  by_cases hc : (s.getD 1 == 1 && e == some 1 && sort.isEmpty && sameElements frame partition) = true
+  · simp only [Bool.and_eq_true, beq_iff_eq, List.isEmpty_iff] at hc
+    exact ⟨hc.1.1.1, hc.1.1.2, hc.1.2, hc.2⟩
+  · rw [if_neg hc] at h
+    by_cases h2 : (cfg.supportsDistinctOn && e == some 1) = true
+    · rw [if_pos h2] at h; cases h
+    · rw [if_neg h2] at h; cases h
+
+/-- DISTINCT ON is chosen only on a dialect that has it and only when one row per group is asked for; in every other case
+the take becomes a filter on ROW_NUMBER() -/
+theorem distinct_on_only_for_one_row (cfg : Cfg) (frame : List CId) (s e : Option Int) (partition : List CId)
+    (sort : List CS) (h : distinctChoice cfg frame s e partition sort = .distinctOn) :
+    cfg.supportsDistinctOn = true ∧ e = some 1 := by
+  unfold distinctChoice at h
+  dsimp only at h
+  by_cases hc : (s.getD 1 == 1 && e == some 1 && sort.isEmpty && sameElements frame partition) = true
+  · rw [if_pos hc] at h; cases h
+  · rw [if_neg hc] at h
+    by_cases h2 : (cfg.supportsDistinctOn && e == some 1) = true
+    · simpa using h2
+    · rw [if_neg h2] at h; cases h
+
+/-- what DISTINCT means where it is right: over rows of one width, the first row of every group of ALL columns is each
+distinct row once (in order of first occurrence) - on the reference semantics Model.Rel, any number of rows -/
+theorem group_take_first_over_all_columns_is_distinct (resolve : Model.Rel.Src → Model.Rel.Table) (t : Model.Rel.Table) (w : Nat)
+    (hw : ∀ r ∈ t.rows, r.length = w) :
+    (Model.Rel.step resolve t (.groupTake (List.range w) [] none (some 1))).rows = Model.Rel.dedup t.rows :=
+  groupTake_all_columns_rows resolve t w hw
+
+example : (∀ r ∈ exTable.rows, r.length = 3) := by decide
+
+/-- ... and the restriction to ALL columns is necessary: grouping by the first of two columns keeps one row, DISTINCT two -/
+theorem distinct_needs_all_columns_counterexample :
+    (Model.Rel.step (fun _ => default) { rows := [[.int 1, .int 1], [.int 1, .int 2]] } (.groupTake [0] [] none (some 1))).rows.length = 1 ∧
+    (Model.Rel.dedup [[Model.Rel.Value.int 1, .int 1], [.int 1, .int 2]]).length = 2 := by decide
+
+/-- GENUINE DEFECT of the unchanged tree (finding distinct-judged-on-final-frame): the frame the pass compares the
+partition with is the one the WHOLE pipeline ends with, not the one the take sees. For
+`from t | select {a, b} | group {a} (take 1) | filter b > 0 | select {a}` the partition {a} equals the final frame {a}, DISTINCT
+is chosen, the later filter keeps `b` in the SELECT DISTINCT list - and by the previous theorem that keeps two rows where the
+pipeline keeps one. -/
+theorem distinct_judged_on_final_frame_counterexample :
+    distinct { supportsDistinctOn := false, exceptAll := true, intersectAll := true, wildcards := [] } 2
+      [.from [0, 1], .select [0, 1], .take none (some (.int 1)) [0] [], .filter (.other 0), .select [0]]
+      = some ([.from [0, 1], .select [0, 1], .distinct, .filter (.other 0), .select [0]], 2) ∧
+    selectCols [.from [0, 1], .select [0, 1]] = [0, 1] := by decide
+
+/-- the ROW_NUMBER filter is the positional take: `take lo..hi` keeps exactly the rows whose 1-based position in the
+(sorted) group satisfies the range condition, in their order - lists of any length, any bounds -/
+theorem row_number_filter_is_positional_take {α} (lo hi : Option Nat) (l : List α) :
+    Model.Rel.takeRange lo hi l = (l.zipIdx.filter fun p => rnKeep lo hi (p.2 + 1)).map (·.1) :=
+  takeRange_eq_filter_rowNumber lo hi l
+
+/-- value of the generated filter condition for row number `n` -/
+def evalRange (rn : CId) (n : Int) : PE → Option Bool
+  | .tru => some true
+  | .eq (.col c) (.int i) => if c = rn then some (n == i) else none
+  | .gte (.col c) (.int i) => if c = rn then some (decide (i ≤ n)) else none
+  | .lte (.col c) (.int i) => if c = rn then some (decide (n ≤ i)) else none
+  | .and a b => match evalRange rn n a, evalRange rn n b with
+    | some x, some y => some (x && y)
+    | _, _ => none
+  | _ => none
+
+/-- the condition `create_filter_by_row_number` writes is the range condition, for every pair of bounds -/
+theorem range_filter_means_the_range (rn : CId) (s e : Option Int) (n : Int) :
+    evalRange rn n (rangeFilter rn s e) =
+      some ((match s with | none => true | some s => decide (s ≤ n)) && (match e with | none => true | some e => decide (n ≤ e))) := by
+  cases s with
+  | none => cases e <;> simp [rangeFilter, evalRange]
+  | some s =>
+    cases e with
+    | none => simp [rangeFilter, evalRange]
+    | some e =>
+      by_cases h : s = e
+      · subst h
+        simp only [rangeFilter, beq_self_eq_true, if_true, evalRange, Option.some.injEq]
+        rw [Bool.eq_iff_iff]
+        simp only [beq_iff_eq, Bool.and_eq_true, decide_eq_true_eq]
+        omega
+      · have : (s == e) = false := by simpa using h
+        simp [rangeFilter, this, evalRange]
+
+/-- a pipeline without partitioned takes passes `distinct` unchanged, and no column id is drawn -/
+theorem distinct_leaves_plain_pipelines (cfg : Cfg) (next : CId) (p : List Model.Preprocess.Tr)
+    (h : ∀ t ∈ p, ∀ s e pa so, t = Model.Preprocess.Tr.take s e pa so → pa = []) :
+    distinct cfg next p = some (p, next) :=
+  distinctGo_no_partition cfg (selectCols p) next p h
+
+/-- after `union` no Append is left -/
+theorem union_eliminates_append (p : List Model.Preprocess.Tr) : ∀ t ∈ union p, isAppend t = false := union_no_append p
+
+/-- decision logic of `except`, stated outright: a left join + filter becomes EXCEPT only if the join condition equates
+every top column and every bottom column, the filter tests every bottom column against null (and only nulls), the final
+frame contains all of top and nothing of bottom; EXCEPT ALL only on a dialect that has it, EXCEPT DISTINCT only behind a
+DISTINCT -/
+theorem except_rewrite_guard (cfg : Cfg) (output : List CId) (jc : PE) (bottom : List CId) (f : PE) (beforeRev : List Model.Preprocess.Tr)
+    (d : Bool) (h : exceptDecide cfg output jc bottom f beforeRev = .rewrite d) :
+    allIn (selectColsRev beforeRev) (collectEquals jc).1 = true ∧ allIn bottom (collectEquals jc).2 = true ∧
+    allIn bottom (collectEquals f).1 = true ∧ allNull (collectEquals f).2 = true ∧
+    bottom.any (output.contains ·) = false ∧ (selectColsRev beforeRev).all (output.contains ·) = true ∧
+    (d = false → cfg.exceptAll = true) ∧ (d = true → ∃ b, beforeRev = .distinct :: b) := by
+  unfold exceptDecide at h
+  dsimp only at h
+  have hd : headIsDistinct beforeRev = true → ∃ b, beforeRev = .distinct :: b := by
+    intro hh
+    cases beforeRev with
+    | nil => simp [headIsDistinct] at hh
+    | cons x xs => cases x <;> simp_all [headIsDistinct]
+  revert h hd
+  generalize allIn (selectColsRev beforeRev) (collectEquals jc).1 = A
+  generalize allIn bottom (collectEquals jc).2 = B
+  generalize allIn bottom (collectEquals f).1 = C
+  generalize allNull (collectEquals f).2 = D
+  generalize (bottom.any fun x => output.contains x) = E
+  generalize ((selectColsRev beforeRev).all fun x => output.contains x) = F
+  generalize headIsDistinct beforeRev = G
+  generalize (containsWildcard cfg (selectColsRev beforeRev) || containsWildcard cfg bottom) = W
+  generalize cfg.exceptAll = X
+  intro h hd
+  cases A <;> cases B <;> cases C <;> cases D <;> cases E <;> cases F <;> cases G <;> cases X <;> cases W <;> cases d <;>
+    simp_all
+
+/-- what the anti-join denotes is EXCEPT (as a set) exactly on NULL-free rows -/
+theorem anti_join_is_except_on_null_free_rows (t b : List Model.Rel.Row) (r : Model.Rel.Row) (hnn : ∀ v ∈ r, v ≠ .null) :
+    r ∈ antiJoinAll t b ↔ r ∈ exceptRows t b := anti_join_mem_iff t b r hnn
+
+/-- ... and differs with a NULL (the row (NULL) of top is kept by the anti-join, removed by EXCEPT) -/
+theorem except_rewrite_null_counterexample :
+    antiJoinAll [[.null]] [[.null]] = [[.null]] ∧ exceptRows [[.null]] [[Model.Rel.Value.null]] = [] := by decide
+
+/-- the stages on the shapes they are made for -/
+example : union [.from [0], .append [1], .distinct, .select [0]] = [.from [0], .union [1] true, .select [0]] := by decide
+example : except { supportsDistinctOn := false, exceptAll := true, intersectAll := true, wildcards := [] }
+    [.from [0], .join .left [1] (.eq (.col 0) (.col 1)), .filter (.eq (.col 1) .null), .select [0]]
+    = some [.from [0], .except [1] false, .select [0]] := by decide
+example : except { supportsDistinctOn := false, exceptAll := false, intersectAll := true, wildcards := [] }
+    [.from [0], .join .left [1] (.eq (.col 0) (.col 1)), .filter (.eq (.col 1) .null), .select [0]]
+    = some [.from [0], .join .left [1] (.eq (.col 0) (.col 1)), .filter (.eq (.col 1) .null), .select [0]] := by decide
+example : except { supportsDistinctOn := false, exceptAll := false, intersectAll := true, wildcards := [1] }
+    [.from [0], .join .left [1] (.eq (.col 0) (.col 1)), .filter (.eq (.col 1) .null), .select [0]] = none := by decide
+example : intersect { supportsDistinctOn := false, exceptAll := true, intersectAll := false, wildcards := [] }
+    [.from [0], .join .inner [1] (.eq (.col 0) (.col 1)), .distinct, .select [0]]
+    = some [.from [0], .intersect [1] true, .select [0]] := by decide
+
+end Stages
 
 end Props.C01
